@@ -160,4 +160,203 @@ def libraryInput {α} (transposeInputGiven : Bool) (F : DMat α) : DMat α :=
 def writtenOutput {α} (transposeOutputGiven : Bool) (E : DMat α) : DMat α :=
   if transposeOutputGiven then E.transpose else E
 
+/-! ## guards, semantically -/
+
+/-- the bad-input predicate a guard tests (what the property text names), independent of how it is spelled -/
+inductive Atom where
+  /-- the option's text is not a key of the map -/
+  | unknownName (map opt : String)
+  /-- the option's `int` value is `< n` -/
+  | intLt (opt : String) (n : Int)
+  /-- the option's `double` value is `< q` -/
+  | dblLt (opt : String) (q : Rat)
+  deriving DecidableEq, Repr
+
+def flipOp : BinOp → Option BinOp
+  | .lt => some .gt | .le => some .ge | .gt => some .lt | .ge => some .le | _ => none
+
+def negOp : BinOp → Option BinOp
+  | .lt => some .ge | .le => some .gt | .gt => some .le | .ge => some .lt | _ => none
+
+def isOrdOp : BinOp → Bool
+  | .lt | .le | .gt | .ge => true
+  | _ => false
+
+/-- a comparison `value(opt) ⋈ literal` brought to the form "option on the left, not negated":
+    `x ⋈ c`, `c ⋈ x` (flipped), `!(…)` (negated), any nesting of `!` -/
+def cmpNorm : Expr → Option (BinOp × String × Ty × String)
+  | .bin op (.value o ty) (.lit ty' s) =>
+    if ty = ty' ∧ (ty = .int ∨ ty = .dbl) ∧ isOrdOp op = true then some (op, o, ty, s) else none
+  | .bin op (.lit ty' s) (.value o ty) =>
+    if ty = ty' ∧ (ty = .int ∨ ty = .dbl) then (flipOp op).map (fun op' => (op', o, ty, s)) else none
+  | .not e =>
+    match cmpNorm e with
+    | some (op, o, ty, s) => (negOp op).map (fun op' => (op', o, ty, s))
+    | none => none
+  | _ => none
+
+/-- `x < n`, and for integers `x ≤ n` (= `x < n+1`), as "below" atoms -/
+def atomOfCmp (c : BinOp × String × Ty × String) : Option Atom :=
+  match c with
+  | (.lt, o, .int, s) => (parseIntCxx s.toList).map (fun n => Atom.intLt o n)
+  | (.le, o, .int, s) => (parseIntCxx s.toList).map (fun n => Atom.intLt o (n + 1))
+  | (.lt, o, .dbl, s) => (parseNum s.toList).map (fun q => Atom.dblLt o q)
+  | _ => none
+
+def leafAtom? (e : Expr) : Option (List Atom) :=
+  match e with
+  | .lookupFails m (.value o .str) => some [Atom.unknownName m o]
+  | e => (cmpNorm e).bind (fun c => (atomOfCmp c).map (fun a => [a]))
+
+/-- the atoms a guard condition is a disjunction of; `none` if some part of it is not understood -/
+def atomsOf? : Expr → Option (List Atom)
+  | .bin .or a b =>
+    match atomsOf? a, atomsOf? b with
+    | some x, some y => some (x ++ y)
+    | _, _ => none
+  | e => leafAtom? e
+
+def guardHasAtom (a : Atom) (g : GuardRow) : Bool :=
+  match atomsOf? g.cond with
+  | some as => as.contains a
+  | none => false
+
+/-- a non-zero guard testing (at least) the bad-input predicate `a` is reached before any data is touched -/
+def reachesAtom (a : Atom) : List Step → Bool
+  | [] => false
+  | .guard g :: rest => g.exit != 0 && (guardHasAtom a g || reachesAtom a rest)
+  | .effect _ _ :: rest => reachesAtom a rest
+  | .openIn _ :: rest => reachesAtom a rest
+  | .openOut _ :: rest => reachesAtom a rest
+  | _ => false
+
+/-- every guard before the data is read is `--help` or a disjunction of spec atoms: nothing else makes the program
+    stop early (no over-rejection) -/
+def preGuardOk (spec : List Atom) : Step → Bool
+  | .guard g =>
+    g.cond == .count "help" ||
+      (match atomsOf? g.cond with
+       | some as => as.all spec.contains
+       | none => false)
+  | _ => true
+
+/-! ## conditions of data steps, semantically -/
+
+/-- the flags and run-time facts the conditions of the data steps may depend on -/
+structure Assign where
+  tin : Bool
+  tout : Bool
+  pre : Bool
+  pmat : Bool
+  pmean : Bool
+  hasProj : Bool
+  castOk : Bool
+  deriving DecidableEq, Repr
+
+def bools : List Bool := [false, true]
+
+def allAssign : List Assign :=
+  bools.flatMap fun a => bools.flatMap fun b => bools.flatMap fun c => bools.flatMap fun d =>
+  bools.flatMap fun e => bools.flatMap fun f => bools.map fun g => ⟨a, b, c, d, e, f, g⟩
+
+def Assign.flag (a : Assign) (opt : String) : Option Bool :=
+  if opt == "transpose-input" then some a.tin
+  else if opt == "transpose-output" then some a.tout
+  else if opt == "precompute" then some a.pre
+  else if opt == "output-projection-matrix-file" then some a.pmat
+  else if opt == "output-projection-mean-file" then some a.pmean
+  else none
+
+/-- truth value of a condition built from `count`, run-time symbols, `true/false`, `!`, `&&`, `||`, `?:` as a function
+    of WHICH flags are present (not how often) -/
+def evalA (a : Assign) : Expr → Option Bool
+  | .count x => a.flag x
+  | .sym n =>
+    if n == "output.projection.implementation" then some a.hasProj
+    else if n == "projection" then some a.castOk
+    else none
+  | .lit .flag s => if s == "true" then some true else if s == "false" then some false else none
+  | .not e => (evalA a e).map (!·)
+  | .bin .and x y =>
+    match evalA a x, evalA a y with
+    | some p, some q => some (p && q)
+    | some false, _ => some false
+    | _, _ => none
+  | .bin .or x y =>
+    match evalA a x, evalA a y with
+    | some p, some q => some (p || q)
+    | some true, _ => some true
+    | _, _ => none
+  | .ite c x y =>
+    match evalA a c with
+    | some true => evalA a x
+    | some false => evalA a y
+    | none => none
+  | _ => none
+
+/-- the truth table of a condition over all assignments -/
+def tableOf (e : Expr) : List (Option Bool) := allAssign.map (fun a => evalA a e)
+
+/-- the truth table of a spec predicate -/
+def tableOfPred (p : Assign → Bool) : List (Option Bool) := allAssign.map (fun a => some (p a))
+
+/-- what a data step does, with its condition as a truth table and its streams as the options that name them;
+    the descriptive spellings of the generated rows are dropped -/
+inductive SemStep where
+  | read (fileOpt delimOpt : String) (table : List (Option Bool))
+  | transpose (target : String) (table : List (Option Bool))
+  /-- `direct` = embedUsing(input) (false: the precomputed-callback branch over the same input) -/
+  | embed (direct : Bool) (params : String) (table : List (Option Bool))
+  | writeMatrix (what fileOpt delimOpt : String) (table : List (Option Bool))
+  | writeVector (what fileOpt : String) (table : List (Option Bool))
+  | guard (exit : Nat) (table : List (Option Bool))
+  | ret (n : Nat)
+  | other
+  deriving DecidableEq, Repr
+
+def fileOpt? : Expr → Option String
+  | .value o .str => some o
+  | _ => none
+
+def delimOpt? : Expr → Option String
+  | .index0 (.value o .str) => some o
+  | _ => none
+
+def Step.sem : Step → SemStep
+  | .readData c t f d =>
+    match fileOpt? f, delimOpt? d with
+    | some fo, some dopt => if t == "input" then .read fo dopt (tableOf c) else .other
+    | _, _ => .other
+  | .transpose c t => .transpose t (tableOf c)
+  | .embed c p d _ _ _ => .embed (d == "input") p (tableOf c)
+  | .writeMatrix c w f d =>
+    match fileOpt? f, delimOpt? d with
+    | some fo, some dopt => .writeMatrix w fo dopt (tableOf c)
+    | _, _ => .other
+  | .writeVector c w f =>
+    match fileOpt? f with
+    | some fo => .writeVector w fo (tableOf c)
+    | none => .other
+  | .guard g => .guard g.exit (tableOf g.cond)
+  | .ret n => .ret n
+  | _ => .other
+
+/-- a write step is one of the three the property knows: the embedding (always, to --output-file), the projection
+    matrix and the mean (under a condition with truth table `projTable`, to the files of their options); matrices with
+    the delimiter option -/
+def writeStepOk (projTable : List (Option Bool)) : Step → Bool
+  | .writeMatrix c w f d =>
+    delimOpt? d == some "delimiter" &&
+      ((w == "output.embedding" && fileOpt? f == some "output-file" && tableOf c == tableOfPred (fun _ => true)) ||
+       (w == "projection.proj_mat" && fileOpt? f == some "output-projection-matrix-file" && tableOf c == projTable))
+  | .writeVector c w f =>
+    w == "projection.mean_vec" && fileOpt? f == some "output-projection-mean-file" && tableOf c == projTable
+  | _ => true
+
+/-- the data part of run() as semantic steps -/
+def semDataPart (steps : List Step) : List SemStep := (steps.dropWhile Step.isPre).map Step.sem
+
+/-- same elements, any order -/
+def sameSet (xs ys : List SemStep) : Bool := xs.all ys.contains && ys.all xs.contains && xs.length == ys.length
+
 end TapkeeVerif.Cli
